@@ -174,24 +174,49 @@ def parse_decorator(repo):
 
     prog = []
     stmts = [st for st in w.body if not is_docstring(st)]
+    aliases = {}     # local name -> constant (a local alias `eps = c.EPSILON`, read once per call: same value)
+
+    def const_or_alias(e):
+        if isinstance(e, ast.Name) and e.id in aliases:
+            return aliases[e.id]
+        return const_of(e)
     for i, st in enumerate(stmts):
+        if (isinstance(st, ast.Assign) and len(st.targets) == 1 and isinstance(st.targets[0], ast.Name)
+                and st.targets[0].id not in params and st.targets[0].id != fparam and st.targets[0].id not in aliases
+                and isinstance(st.value, ast.Attribute) and not prog):
+            aliases[st.targets[0].id] = const_of(st.value)
+            continue
         if isinstance(st, ast.AugAssign) and isinstance(st.op, ast.Add) and isinstance(st.target, ast.Name):
             if st.target.id not in params:
                 fail(path, st, "decorator: += on a non-parameter")
-            prog.append(["AugAdd", st.target.id, const_of(st.value)])
+            prog.append(["AugAdd", st.target.id, const_or_alias(st.value)])
         elif (isinstance(st, ast.Assign) and len(st.targets) == 1 and isinstance(st.targets[0], ast.Name)
               and isinstance(st.value, ast.BinOp) and isinstance(st.value.op, ast.Add)
               and isinstance(st.value.left, ast.Name) and st.value.left.id == st.targets[0].id):
             if st.targets[0].id not in params:
                 fail(path, st, "decorator: rebinding of a non-parameter")
-            prog.append(["Rebind", st.targets[0].id, const_of(st.value.right)])
+            prog.append(["Rebind", st.targets[0].id, const_or_alias(st.value.right)])
         elif isinstance(st, ast.Return):
             v = st.value
-            ok = (isinstance(v, ast.Call) and isinstance(v.func, ast.Name) and v.func.id == fparam and not v.keywords
-                  and all(isinstance(x, ast.Name) and x.id in params for x in v.args))
-            if not ok or i != len(stmts) - 1:
+            if not (isinstance(v, ast.Call) and isinstance(v.func, ast.Name) and v.func.id == fparam and not v.keywords) \
+                    or i != len(stmts) - 1:
                 fail(path, st, "decorator: the wrapper must end in `return f(<its parameters>)`")
-            prog.append(["ReturnCall", [x.id for x in v.args]])
+            names = []
+            for x in v.args:
+                if isinstance(x, ast.Name) and x.id in params:
+                    names.append(x.id)
+                elif (isinstance(x, ast.BinOp) and isinstance(x.op, ast.Add) and isinstance(x.left, ast.Name)
+                      and x.left.id in params):
+                    # f(x + c.EPSILON, ...): a fresh array is passed on - the same program as `x = x + c.EPSILON; f(x, ...)`
+                    if x.left.id in names or any(pr[1] == x.left.id for pr in prog):
+                        fail(path, st, "decorator: parameter %s is shifted twice" % x.left.id)
+                    prog.append(["Rebind", x.left.id, const_or_alias(x.right)])
+                    names.append(x.left.id)
+                else:
+                    fail(path, st, "decorator: the wrapper must end in `return f(<its parameters>)`")
+            if len(set(names)) != len(names):
+                fail(path, st, "decorator: a parameter is passed twice")
+            prog.append(["ReturnCall", names])
         else:
             fail(path, st, "decorator: unsupported statement %s" % type(st).__name__)
     if not prog or prog[-1][0] != "ReturnCall":
@@ -228,6 +253,8 @@ class FunctionTranslator:
         self.env = {}          # local name -> ('v'|'s', node) | ('zeros',) | ('cond', op, l, r)
         self.calls = []
         self.loop_var = None
+        self.helpers = {}
+        self.inline_depth = 0
 
     def err(self, node, msg):
         fail(self.path, node, "%s: %s" % (self.fn.name, msg))
@@ -299,7 +326,7 @@ class FunctionTranslator:
     def is_len(self, e):
         """x.shape[0] for the first parameter"""
         return (isinstance(e, ast.Subscript) and isinstance(e.value, ast.Attribute) and e.value.attr == "shape"
-                and isinstance(e.value.value, ast.Name) and e.value.value.id == self.px
+                and isinstance(e.value.value, ast.Name) and self.px is not None and e.value.value.id == self.px
                 and isinstance(e.slice, ast.Constant) and e.slice.value == 0 and not isinstance(e.slice.value, bool))
 
     def tr(self, e):
@@ -394,6 +421,9 @@ class FunctionTranslator:
             if l[0] != "v" and r[0] != "v":
                 self.err(e, "np.count_nonzero of a scalar comparison")
             return ("s", ["SCountNe", lift(l), lift(r)])
+        if isinstance(e.func, ast.Name) and e.func.id in self.helpers and e.func.id not in self.env \
+                and e.func.id not in [p for p, _ in self.params]:
+            return self.inline_helper(e)
         if isinstance(e.func, ast.Name) and e.func.id in self.all_fn_names and e.func.id not in self.env \
                 and e.func.id not in [p for p, _ in self.params]:
             f = e.func.id
@@ -410,6 +440,37 @@ class FunctionTranslator:
             return ("s", ["SCall", f, a[1], b[1]])
         self.err(e, "unsupported call %s" % ast.unparse(e.func))
 
+    def inline_helper(self, e):
+        """f(a, b, ...) for a module-level private helper: its return expression with the parameters replaced by the
+        (already translated) arguments. Only expression helpers: plain parameters, single assignments, one return;
+        decorators other than a plain @njit are refused (the EPSILON wrapper would change the arguments)."""
+        h = self.helpers[e.func.id]
+        if self.inline_depth >= 3:
+            self.err(e, "helper calls nested too deeply")
+        a = h.args
+        if a.vararg or a.kwarg or a.kwonlyargs or a.defaults or getattr(a, "posonlyargs", []):
+            self.err(e, "helper %s: unsupported parameter kinds" % h.name)
+        for dec in h.decorator_list:
+            ok = (isinstance(dec, ast.Name) and self.al.get(dec.id) == "njit") or \
+                 (isinstance(dec, ast.Call) and isinstance(dec.func, ast.Name) and self.al.get(dec.func.id) == "njit" and not dec.args
+                  and all(k.arg in ("cache", "nogil") for k in dec.keywords))
+            if not ok:
+                self.err(e, "helper %s: unsupported decorator" % h.name)
+        if self.njit and not h.decorator_list:
+            self.err(e, "njit code calling the plain Python helper %s" % h.name)
+        names = [p.arg for p in a.args]
+        if len(names) != len(e.args) or len(set(names)) != len(names):
+            self.err(e, "helper %s called with the wrong number of arguments" % h.name)
+        sub = FunctionTranslator(self.path, self.src, self.al, h, self.all_fn_names, self.decorated_names)
+        sub.helpers = {k: v for k, v in self.helpers.items() if k != h.name}
+        sub.inline_depth = self.inline_depth + 1
+        sub.params, sub.px, sub.py, sub.extra = [], None, None, []
+        sub.avoid, sub.njit = False, bool(h.decorator_list)
+        sub.calls = self.calls
+        for n, arg in zip(names, e.args):
+            sub.env[n] = self.tr(arg)
+        return sub.body(result_kind=None)
+
     # -- statements ---------------------------------------------------------------------------
     def bind(self, st, name, val):
         if name in [p for p, _ in self.params]:
@@ -420,7 +481,7 @@ class FunctionTranslator:
             self.err(st, "local %s shadows a module-level name" % name)
         self.env[name] = val
 
-    def body(self):
+    def body(self, result_kind="s"):
         stmts = [st for st in self.fn.body if not is_docstring(st)]
         if not stmts or not isinstance(stmts[-1], ast.Return) or stmts[-1].value is None:
             self.err(self.fn, "the body must end in `return <expr>`")
@@ -446,12 +507,12 @@ class FunctionTranslator:
             else:
                 self.err(st, "unsupported statement %s" % type(st).__name__)
         k, n = self.tr(stmts[-1].value)
-        if k != "s":
+        if result_kind == "s" and k != "s":
             self.err(stmts[-1], "a metric must return a scalar")
         for name, val in self.env.items():
             if val[0] == "zeros":
                 self.err(self.fn, "array %s is never filled" % name)
-        return n
+        return n if result_kind == "s" else (k, n)
 
     def for_loop(self, st):
         """for i in range(x.shape[0]): if mask[i] is True: d[i] = A  else: d[i] = B      (hassanat)"""
@@ -464,9 +525,18 @@ class FunctionTranslator:
         i = st.target.id
         if i in self.env or i in [p for p, _ in self.params] or i in self.al:
             self.err(st, "loop variable %s clashes" % i)
-        if len(st.body) != 1:
-            self.err(st, "loop body must be a single if/else or a single store")
         self.loop_var = i
+        # leading `name = <expr>` statements: per-index temporaries (single assignment), visible in the rest of the body
+        body_stmts = list(st.body)
+        loop_locals = []
+        while len(body_stmts) > 1 and isinstance(body_stmts[0], ast.Assign) and len(body_stmts[0].targets) == 1 \
+                and isinstance(body_stmts[0].targets[0], ast.Name):
+            a0 = body_stmts.pop(0)
+            k0, n0 = self.tr(a0.value)
+            self.bind(a0, a0.targets[0].id, ("v", lift((k0, n0))))
+            loop_locals.append(a0.targets[0].id)
+        if len(body_stmts) != 1:
+            self.err(st, "loop body must be temporaries followed by a single if/else or a single store")
 
         def store(s):
             if not (isinstance(s, ast.Assign) and len(s.targets) == 1 and isinstance(s.targets[0], ast.Subscript)
@@ -479,7 +549,7 @@ class FunctionTranslator:
             k, n = self.tr(s.value)
             return arr, lift((k, n))
 
-        b = st.body[0]
+        b = body_stmts[0]
         if isinstance(b, ast.If):
             if len(b.body) != 1 or len(b.orelse) != 1:
                 self.err(b, "if/else branches must be single stores")
@@ -502,6 +572,8 @@ class FunctionTranslator:
             a1, e1 = store(b)
             self.env[a1] = ("v", e1)
         self.loop_var = None
+        for nm in loop_locals:
+            self.env[nm] = ("dead",)       # per-index temporaries are not visible after the loop
 
 
 def parse_distance(repo):
@@ -511,11 +583,17 @@ def parse_distance(repo):
     need = {"numpy", "math", "consts", "decorator", "njit"}
     if not need <= set(al.values()):
         fail(path, tree, "missing expected imports: %s" % sorted(need - set(al.values())))
-    fns, registry = [], None
+    fns, registry, helpers = [], None, {}
     for st in tree.body:
         if is_docstring(st) or isinstance(st, (ast.Import, ast.ImportFrom)):
             continue
         if isinstance(st, ast.FunctionDef):
+            if st.name.startswith("_") and not st.name.endswith("_distance"):
+                # a private helper shared by metric bodies: inlined at every call site (pure expression function)
+                if registry is not None:
+                    fail(path, st, "function defined after DISTANCES")
+                helpers[st.name] = st
+                continue
             if not st.name.endswith("_distance") or st.name == "_distance":
                 fail(path, st, "module-level function %s is not a *_distance metric" % st.name)
             if registry is not None:
@@ -542,6 +620,7 @@ def parse_distance(repo):
     metrics = []
     for f in fns:
         ft = FunctionTranslator(path, src, al, f, set(names), decorated)
+        ft.helpers = helpers
         ft.header()
         body = ft.body()
         metrics.append(dict(name=f.name[:-len("_distance")], fname=f.name, avoid_zero=ft.avoid, njit=ft.njit,
